@@ -30,18 +30,38 @@ def tensor(xs):
 class UFTarget:
     """`for all differentiable targets`: log-density and gradient are uninterpreted functions of the position."""
 
-    def __init__(self, dim, tag="LP"):
+    def __init__(self, dim, tag="LP", nan_mode=False):
         self.dim = dim
         self.lp = z3.Function(tag, *([z3.RealSort()] * (dim + 1)))
         self.gr = [z3.Function("d%s_%d" % (tag, i), *([z3.RealSort()] * (dim + 1))) for i in range(dim)]
         self.calls = 0
+        self.nan_mode = nan_mode
+        # N-mode: the target may answer NaN for its value and/or its gradient at any point (uninterpreted predicates)
+        self.lp_nan = z3.Function(tag + "_isnan", *([z3.RealSort()] * dim + [z3.BoolSort()]))
+        self.gr_nan = z3.Function("d" + tag + "_isnan", *([z3.RealSort()] * dim + [z3.BoolSort()]))
+
+    def pos_nan(self, xs):
+        n = None
+        for x in xs:
+            n = mirsym.nan_or(n, Num.of(x).nan)
+        return n
 
     def logp(self, xs):
-        return Num(self.lp(*[Num.of(x).z() for x in xs]))
+        zs = [Num.of(x).z() for x in xs]
+        if not self.nan_mode:
+            return Num(self.lp(*zs))
+        return Num(self.lp(*zs), mirsym.nan_or(self.lp_nan(*zs), self.pos_nan(xs)))
+
+    def logp_is_nan(self, xs):
+        zs = [Num.of(x).z() for x in xs]
+        return mirsym.nan_or(self.lp_nan(*zs), self.pos_nan(xs))
 
     def grad(self, xs):
         zs = [Num.of(x).z() for x in xs]
-        return [Num(g(*zs)) for g in self.gr]
+        if not self.nan_mode:
+            return [Num(g(*zs)) for g in self.gr]
+        n = mirsym.nan_or(self.gr_nan(*zs), self.pos_nan(xs))
+        return [Num(g(*zs), n) for g in self.gr]
 
     def install(self, eng):
         eng.overrides = [(p, f) for (p, f) in eng.overrides if "unnorm_logp_and_grad" not in p.pattern]
@@ -471,3 +491,218 @@ def _build_tree_config(eng, u, out, dim, j, v):
         u.equal(ctx, "build_tree = Algorithm 6: acceptance statistic sum alpha'", f[11], t["a"], RP_TREE, inst)
         u.holds(ctx, "build_tree = Algorithm 6: acceptance statistic count n_alpha' = 2^j leapfrogs actually taken", beq(f[12], t["na"]), RP_TREE, inst)
     u.reached("build_tree paths at dim=%d depth=%d v=%d" % (dim, j, v), n_paths["total"])
+
+
+
+# ------------------------------------------------------------------------------------------------
+# C03 (transition level) and C14 (NUTS part): NUTSChain::step against Algorithm 6's outer loop
+# ------------------------------------------------------------------------------------------------
+def find_loop_head(fn, var):
+    m = re.fullmatch(r"_(\d+)", fn.debug[var][0])
+    local = int(m.group(1))
+    for i, b in sorted(fn.blocks.items()):
+        t = b.term
+        if b.cleanup or t.kind != "switch" or t.a["op"].place is None:
+            continue
+        sw = t.a["op"].place.local
+        for st in b.stmts:
+            if st.place.local == sw and not st.place.proj and st.rvalue.kind == "use" and \
+                    st.rvalue.args[0].place is not None and st.rvalue.args[0].place.local == local:
+                return i
+    raise Unmodelled("loop on `%s` not found in %s" % (var, fn.name))
+
+
+def dbg_local(fn, name):
+    return int(re.fullmatch(r"_(\d+)", fn.debug[name][0]).group(1))
+
+
+def _nuts_step_paths(eng, dim, doublings, nan_mode):
+    """Explore NUTSChain::step with an uninterpreted target up to `doublings` iterations of the doubling loop.
+    The loop state (position, s, n, alpha, n_alpha) is observed at every visit of the loop head; a path ends when the
+    loop exits (the adaptation tail is then executed too) or after `doublings` iterations (stated bound)."""
+    T = UFTarget(dim, nan_mode=nan_mode)
+    T.install(eng)
+    step_name = eng.find_fn("NUTSChain::step")
+    fn = eng.dump.get(step_name)
+    head = find_loop_head(fn, "s")
+    exit_bb = find_loop_exit(fn, "s")
+    loc = {k: dbg_local(fn, k) for k in ("s", "n", "alpha", "n_alpha", "j")}
+    eng.loop_bounds["*"] = 400
+
+    def run(ctx):
+        pos = [ctx.fresh_real("q") for _ in range(dim)]
+        st = {k: ctx.fresh_real(k) for k in ("epsilon", "epsilon_bar", "h_bar", "mu", "delta")}
+        ctx.assume(st["epsilon"].z() > 0)
+        ctx.assume(st["epsilon_bar"].z() > 0)
+        m0 = 3
+        me = nuts_chain_struct(eng, target=Opaque("target"), position=tensor(pos), target_accept_p=st["delta"],
+                               epsilon=st["epsilon"], m=m0, n_collect=5, n_discard=10, gamma=Num(GAMMA), t_0=T0, kappa=Num(KAPPA),
+                               mu=st["mu"], epsilon_bar=st["epsilon_bar"], h_bar=st["h_bar"],
+                               rng=Struct("SmallRng", ["seed"], [Opaque("state")]))
+        if nan_mode:
+            ctx.assume(z3.Not(T.logp_is_nan(pos)))
+        n0 = len(ctx.draws)
+        eng.functions_entered.add(step_name)
+        frame = mirsym.Frame(fn, [Ref.to(me)])
+        snaps = []
+        r = eng.run_frame(frame, 0, stop_at={head})
+        k = 0
+        finished = False
+        while True:
+            snaps.append({"position": vec(me.get("position")), "s": frame.locals[loc["s"]], "n": frame.locals[loc["n"]],
+                          "alpha": frame.locals[loc["alpha"]], "n_alpha": frame.locals[loc["n_alpha"]],
+                          "ndraws": len(ctx.draws) - n0})
+            cont = ctx.branch(frame.locals[loc["s"]], "loop")
+            if not cont:
+                eng.run_frame(frame, exit_bb)  # adaptation tail
+                finished = True
+                break
+            if k >= doublings:
+                break
+            r = eng.run_frame(frame, head, stop_at={head}, skip_first=True)
+            k += 1
+        return pos, st, me, ctx.draws[n0:], m0, snaps, finished
+    return T, eng.explore(run, max_paths=20000)
+
+
+class Alg6Step(Alg6):
+    def next_kind(self, kind):
+        if self.k >= len(self.draws):
+            raise Mismatch("Algorithm 6 needs a %s draw the implementation did not make" % kind)
+        k, x = self.draws[self.k]
+        self.k += 1
+        if k != kind:
+            raise Mismatch("draw %d is %s, Algorithm 6 expects %s" % (self.k - 1, k, kind))
+        return x
+
+    def transition(self, pos, eps, n_iter):
+        """state of Algorithm 6's outer loop after each of the first n_iter doublings (list of snapshots)"""
+        T = self.T
+        dim = len(pos)
+        r0 = [self.next_kind("normal") for _ in range(dim)]
+        lp0 = T.logp(pos)
+        g0 = T.grad(pos)
+        joint = lp0 - dot(r0, r0) * Num(Fraction(1, 2))
+        logu = joint - self.next_kind("exp1")
+        thm, thp, rm, rp, gm, gp = list(pos), list(pos), list(r0), list(r0), list(g0), list(g0)
+        cur = list(pos)
+        n = 1
+        alpha, n_alpha = Num(0), 0
+        cont = True
+        snaps = [dict(position=list(cur), s=True, n=1, alpha=alpha, n_alpha=0)]
+        for j in range(n_iter):
+            u1 = self.next_kind("uniform")
+            fwd = self.decide(u1.lt(Num(Fraction(1, 2))), "direction of doubling %d" % j)
+            if fwd:
+                t = self.build(thp, rp, gp, logu, 1, j, eps, joint)
+                thp, rp, gp = t["thp"], t["rp"], t["gp"]
+            else:
+                t = self.build(thm, rm, gm, logu, -1, j, eps, joint)
+                thm, rm, gm = t["thm"], t["rm"], t["gm"]
+            alpha, n_alpha = t["a"], t["na"]
+            u2 = self.next_kind("uniform")
+            ratio = Num(z3.ToReal(zi(t["n"]))) / Num(z3.ToReal(zi(n)))
+            take = b_and(t["s"], u2.lt(fmin(1, ratio)))
+            cur = [ite(take, a, b) for a, b in zip(t["th1"], cur)]
+            n = z3.simplify(zi(n) + zi(t["n"]))
+            cont = b_and(t["s"], ref_uturn(thm, thp, rm, rp))
+            snaps.append(dict(position=list(cur), s=cont, n=n, alpha=alpha, n_alpha=n_alpha))
+        return snaps
+
+
+def _check_step_snaps(u, eng, ctx, T, res, doublings, inst, nan_obl=False):
+    pos, st, me, draws, m0, snaps, finished = res
+    k_done = len(snaps) - 1
+    a6 = Alg6Step(eng, ctx, T, draws)
+    ref = a6.transition(pos, st["epsilon"], k_done)
+    if a6.k != len(draws):
+        raise Mismatch("the implementation made %d draws in %d doublings, Algorithm 6 uses %d" % (len(draws), k_done, a6.k))
+    for k in range(1, k_done + 1):
+        a, b = snaps[k], ref[k]
+        conj = z3.And([zbool(Num.of(x).same(Num.of(y))) for x, y in zip(a["position"], b["position"])])
+        u.holds(ctx, "after every doubling the current state is the one Algorithm 6 selects for the same draws", conj, RP_TREE, inst)
+        u.holds(ctx, "the trajectory keeps doubling exactly while Algorithm 6 does (no stop, no U-turn)", beq(a["s"], b["s"]), RP_TREE, inst)
+        u.holds(ctx, "the running count of slice-admissible points matches Algorithm 6", beq(a["n"], b["n"]), RP_TREE, inst)
+        u.holds(ctx, "the acceptance statistic of the last doubling matches Algorithm 6 (sum and count)",
+                z3.And(zbool(Num.of(a["alpha"]).same(Num.of(b["alpha"]))), beq(a["n_alpha"], b["n_alpha"])), RP_TREE, inst)
+    if finished and k_done >= 1:
+        mr = Num(m0 + 1)
+        eta = Num(1) / (mr + T0)
+        last = ref[k_done]
+        hbar = (Num(1) - eta) * st["h_bar"] + eta * (st["delta"] - last["alpha"] / Num(last["n_alpha"]))
+        u.equal(ctx, "the acceptance statistic driving adaptation is the mean of min(1, exp(energy change)) over the last doubling",
+                me.get("h_bar"), hbar, RP_TREE, inst)
+    return k_done, finished
+
+
+def c03_step(out, tier, seed):
+    eng = mir_load.load_engine()
+    mirsym.MUL_MODE["mode"] = "uf"
+    cfgs = [(1, 1)] if tier == "quick" else [(1, 2), (2, 1)]
+    u = MUnit(out, "C03", "c03_step", eng,
+              functions=["NUTSChain::step (whole transition incl. the doubling loop and the adaptation tail)", "nuts::build_tree",
+                         "nuts::leapfrog", "nuts::stop_criterion"],
+              bounds=["(dimension, doublings explored) in %s; the loop state is compared with Algorithm 6 after every doubling; "
+                      "every draw (momentum, slice variate, direction / selection / acceptance uniforms) an arbitrary value of "
+                      "its range" % (cfgs,)],
+              assumptions=R_ASSUME + ["products of two symbolic reals abstracted by a commutative uninterpreted product"],
+              out_of_scope=["doublings beyond the bound (the loop body is the same code)", "rounding"])
+    try:
+        for dim, dbl in cfgs:
+            T, paths = _nuts_step_paths(eng, dim, dbl, False)
+            done = fin = 0
+            for ctx, res in paths:
+                u.paths += 1
+                if isinstance(res, Exception):
+                    out.inconclusive.append("c03_step dim=%d: %r" % (dim, res))
+                    continue
+                inst = "dim=%d, %d draws, %d doublings" % (dim, len(res[3]), len(res[5]) - 1)
+                try:
+                    k, finished = _check_step_snaps(u, eng, ctx, T, res, dbl, inst)
+                except Mismatch as e:
+                    u.holds(ctx, "the transition follows Algorithm 6's control flow and draw order", False, RP_TREE, inst + ": " + str(e))
+                    continue
+                done += 1
+                fin += 1 if finished else 0
+            u.reached("transition paths explored at dim=%d" % dim, done)
+            u.reached("transitions that end within the bound (adaptation tail executed) at dim=%d" % dim, fin)
+            out.bounds.append("c03_step dim=%d doublings<=%d: %d paths, %d ended within the bound" % (dim, dbl, done, fin))
+    finally:
+        mirsym.MUL_MODE["mode"] = "exact"
+    u.done()
+
+
+def RP_NAN(model):
+    import m_replay
+    return m_replay.replay_nan("nuts")
+
+
+def c14_nuts(out, tier, seed):
+    eng = mir_load.load_engine()
+    mirsym.MUL_MODE["mode"] = "uf"
+    dbl = 1 if tier == "quick" else 2
+    u = MUnit(out, "C14", "c14_nuts", eng,
+              functions=["NUTSChain::step", "nuts::build_tree", "nuts::leapfrog", "nuts::stop_criterion"],
+              bounds=["dimension 1, %d doubling(s) explored; target value and gradient may be NaN at any point "
+                      "(uninterpreted predicates), the start point has a non-NaN density" % dbl],
+              assumptions=["N-mode: real arithmetic plus a NaN flag with IEEE semantics (ordered comparisons false on NaN, "
+                           "arithmetic propagates, f::min ignores NaN); a target evaluated at a NaN position answers NaN",
+                           "-inf densities are covered as arbitrarily negative reals only (not exactly)"] + R_ASSUME[1:],
+              out_of_scope=["hangs (the doubling loop and find_reasonable_epsilon are unbounded)", "overflow to +-inf inside burn kernels"])
+    try:
+        T, paths = _nuts_step_paths(eng, 1, dbl, True)
+        done = 0
+        for ctx, res in paths:
+            u.paths += 1
+            if isinstance(res, Exception):
+                out.inconclusive.append("c14_nuts: %r" % (res,))
+                continue
+            pos, st, me, draws, m0, snaps, finished = res
+            done += 1
+            for sn in snaps[1:]:
+                u.holds(ctx, "NUTS never moves to a state whose log-density is NaN (nor to NaN coordinates)",
+                        z3.Not(T.logp_is_nan(sn["position"])), RP_NAN)
+        u.reached("NUTS transition paths explored with a NaN-capable target", done)
+    finally:
+        mirsym.MUL_MODE["mode"] = "exact"
+    u.done()
